@@ -40,7 +40,7 @@ type options struct {
 
 func parseArgs(args []string) (*config, *options) {
 	cfg := &config{seed: vh.Seed(), maxLen: vh.Pick(600, 4096), truncAll: vh.Tier() == "thorough"}
-	o := &options{n: int64(vh.Pick(40000, 1200000)), src: "/repo", replay: -1}
+	o := &options{n: int64(vh.Pick(40000, 1200000)), src: vh.RepoRoot(), replay: -1}
 	for _, a := range args {
 		switch {
 		case strings.HasPrefix(a, "iter="):
